@@ -116,7 +116,7 @@ def _gen_cases(tier, seed):
     i += 1
     # ragged writes
     nr = 2000 if tier == "quick" else 6000
-    bads = ["atoms+1", "atoms-1", "cell-toggle", "time-toggle"]
+    bads = ["atoms+1", "atoms-1", "atoms=1", "cell-toggle", "time-toggle"]  # atoms=1: a shape numpy would broadcast
     for j in range(nr):
         rng = common.rng_for("C19r", seed, j)
         fmt = STREAM[j % len(STREAM)]
@@ -440,6 +440,8 @@ def _ragged(case, ctx, d):
         bt = files.ident_traj(1, NA + 1, cell="ortho", f0=n)
     elif bad == "atoms-1":
         bt = files.ident_traj(1, NA - 1, cell="ortho", f0=n)
+    elif bad == "atoms=1":
+        bt = files.ident_traj(1, 1, cell="ortho", f0=n)
     elif bad == "cell-toggle":
         if (cell, time) not in variants(fmt) or (not cell, time) not in variants(fmt):
             ctx.skip("ragged", f"{fmt}: writer takes no optional cell")
